@@ -223,6 +223,21 @@ fn cframe(r: &mut Rng) -> CFrame {
             ];
             Matrix3::from_basic_rotation_id(*r.pick(IDS)).unwrap_or_else(|_| Matrix3::identity())
         }
+        2 if r.chance(1, 2) => {
+            // Rows drawn independently from the six unit axis vectors: reflections
+            // and degenerate matrices (repeated or opposite rows) that look
+            // axis-aligned but are not among the 24 basic rotations.
+            let axis = |r: &mut Rng| {
+                let k = r.below(6);
+                let v = if k % 2 == 0 { 1.0 } else { -1.0 };
+                match k / 2 {
+                    0 => Vector3::new(v, 0.0, 0.0),
+                    1 => Vector3::new(0.0, v, 0.0),
+                    _ => Vector3::new(0.0, 0.0, v),
+                }
+            };
+            Matrix3::new(axis(r), axis(r), axis(r))
+        }
         _ => Matrix3::new(v3(r), v3(r), v3(r)),
     };
     CFrame::new(pos, m)
@@ -349,9 +364,12 @@ fn gen_value_rng(ty: &str, r: &mut Rng) -> Variant {
         "OptionalCFrame" => Variant::OptionalCFrame(if r.chance(1, 3) { None } else { Some(cframe(r)) }),
         "Tags" => {
             let mut t = Tags::new();
-            for _ in 0..r.below(4) {
-                let s = stringv(r).replace('\0', "");
+            let mut seen: Vec<String> = Vec::new();
+            for _ in 0..r.below(5) {
+                // now and then the same tag again
+                let s = if !seen.is_empty() && r.chance(1, 4) { r.pick(&seen).clone() } else { stringv(r).replace('\0', "") };
                 t.push(&s);
+                seen.push(s);
             }
             Variant::Tags(t)
         }
